@@ -503,8 +503,9 @@ class Queue(Greenlet):
            This can be a very expensive operation, use with care.
 
         """
+        # Leave the event set: if the scheduler is busy right now it must not
+        # go back to sleep holding the lock.
         self.wake.set()
-        self.wake.clear()
         self.queued_lock.acquire()
         try:
             entries = self.queued
